@@ -157,6 +157,7 @@ PROPS["C11"] = dict(
     jobs=[
         J("TestC11_Exact", 500, 3000, shards=12),
         J("TestC11_Hasher", 2000, 20000, shards=1),
+        J("TestC11_CraftedSmallS", 600, 4000, shards=3),
     ],
 )
 
@@ -168,6 +169,7 @@ PROPS["C12"] = dict(
           "PublicKey() twice gives Equal keys, DecodePublicKey(Encode()) round-trips. Non-trivial = every accepted case; distinct by (algorithm, seed) / (algorithm, origin, scalar)."),
     assumptions=["oracle/keygen implements the documented derivations on oracle/sha2; self-tested on the repository's pinned breaking-change vectors", "oracle/wecdsa and oracle/bls381 give scalar·generator"],
     jobs=[
+        J("TestC12_ConcurrentPublicKey", 60, 300, shards=4),
         J("TestC12_Seed", 2000, 12000, shards=4),
         J("TestC12_EveryLength", 8, 30, shards=2),
         J("TestC12_PublicKey", 2000, 12000, shards=3),
@@ -188,6 +190,7 @@ PROPS["C15"] = dict(
         J("TestC15_Public", 400, 4000, shards=4),
         J("TestVerifC15_UintN", 4096, 65536, shards=16, kind="c15"),
         J("TestVerifC15_Perm", 7, 8, shards=1, kind="c15"),
+        J("TestVerifC15_Deep", 128, 1024, shards=4, kind="c15"),
     ],
     exhaustive_note="UintN: all first reads (and all second reads after a rejection) for every n in the budget; permutation helpers: all accepted-value tapes for n <= 7 (8)",
 )
